@@ -7,7 +7,7 @@ final = {}
 try:
     secs = open('mutants/REPORT.md').read().split('## run ')
     # from the last FULL run (pattern='') on; later partial re-runs override
-    last_full = max(i for i, sec in enumerate(secs) if "pattern=''" in sec.splitlines()[0])
+    last_full = max(i for i, sec in enumerate(secs) if sec.strip() and "pattern=''" in sec.splitlines()[0])
     rep = []
     for sec in secs[last_full:]:
         rep += sec.splitlines()
